@@ -4,8 +4,11 @@ CLAIMED = {
     "C16": dict(
         text="Lean 4 theorems over the model of qencode.c (tables regenerated from the source on every run): "
              "decode∘encode = id for URL/Base64/hex for all byte strings, RFC 4648 format, URL alphabet, "
-             "decoder spellings, query-string round trip; model tied to the code by a differential "
-             "correspondence run (all strings of length 0-2, sampled length 3, random up to 8 KiB).",
+             "decoder spellings, query-string round trip (query_roundtrip_any_sep: for EVERY pair of distinct separators that "
+             "are not NUL and never emitted by qurl_encode - sep_admissible decides this from the regenerated table - not only "
+             "'=' and '&'); model tied to the code by a differential "
+             "correspondence run (all strings of length 0-2, sampled length 3, random up to 8 KiB; query parsing with every "
+             "pair of separators from {=,&,;,space,NUL,0x80,0xff,%,+} against an independent reference reading).",
         note="trusted: Lean kernel, translator/tables.py (gcc -E + regex), the hand transcription of the loops "
              "(validated only on explored inputs), gcc/ASan; x86-64 signed char.",
         technique="Lean 4 proof (induction over byte lists, decide +kernel over regenerated tables) + "
@@ -14,7 +17,10 @@ CLAIMED = {
     "C17": dict(
         text="Lean 4 theorems: for EVERY NUL-free input the in-place URL/Base64/hex decoders (raw-buffer models with "
              "checked reads/writes and fuel) return ok, never touch a byte outside `s ++ [0]`, produce at most |s| bytes and "
-             "terminate the result; the query-string parser is total. Correspondence: exhaustive strings over each "
+             "terminate the result; the query-string parser is total; makeword_raw_safe: the raw-buffer model of _q_makeword "
+             "(checked reads/writes) returns ok for EVERY NUL-free string and EVERY stop byte incl. '\\0' and equals the "
+             "list-level split; makeword_nul_stop: with stop '\\0' the whole string is the word and nothing is left. "
+             "Correspondence: exhaustive strings over each "
              "format's significant alphabet + random inputs in exactly sized heap buffers under ASan/UBSan. "
              "Parser half (Props/C17Parsers.lean): the raw-buffer Apache-style tokenizer returns for every line with no "
              "out-of-bounds access, the Apache-style parse and the INI-style parse (incl. bounded ${} expansion of self- "
@@ -24,7 +30,9 @@ CLAIMED = {
              "(model over an abstract file system path -> content): iniParseFile_total - a table or an error for every file "
              "system incl. self- and mutually including files (budget _MAX_INCLUDES regenerated from the source); "
              "correspondence over real temporary files: cycles, missing files, paths around PATH_MAX, directives not at the "
-             "beginning of a line, repeated directive text.",
+             "beginning of a line, repeated directive text, lines that only LOOK like the directive (no blank, other case, "
+             "other continuation, directive at end of input), separators =,:,space,NUL,#,[ for parse_str/parse_file, "
+             "_q_makeword / qparse_queries with stop bytes incl. NUL, 0x80, 0xff, %, +.",
         note="trusted: Lean kernel, hand transcription of the decoder loops (validated on explored inputs), gcc/ASan; "
              "wall-clock termination of compiled code is observed by timeouts, the theorem is about fuel; the include loop's buffer accesses are "
              "list operations in the model (its PATH_MAX overflow was found by the harness under ASan); popen of ${!cmd} "
@@ -192,12 +200,19 @@ CLAIMED.update({
              "section still open at end of input, or a closing tag that closes nothing followed by arbitrary text: rejected "
              "with -1, the error names the line of the first offence, callbacks exactly those of the prefix); "
              "ac_no_final_newline (same result, message included, with or without the final LF); ini_roundtrip incl. "
-             "literal `$` (DollarOk) and references nested one level; ac_long_comment_ignored (a comment of ANY length, in any section, makes no "
+             "literal `$` (DollarOk) and references nested one level (for every separator that is neither white space nor NUL: "
+             "hypotheses hsep, hs0 - with sepchar NUL the code builds EMPTY section prefixes, which the model reproduces); "
+             "ini_include_directive (the directive the model recognises is the source's _INCLUDE_DIRECTIVE, regenerated on "
+             "every run: 9 bytes ending in a blank), include_free_is_parseStr (a file with no line beginning with the "
+             "directive parses exactly as its text does, whatever look-alike lines it has) and include_splice (the first "
+             "directive line is replaced by exactly the named file's content, path resolved against the including file's "
+             "directory); ac_long_comment_ignored (a comment of ANY length, in any section, makes no "
              "callback and counts as one line) and ac_long_directive_rejected / ac_long_line_error (any other line longer "
              "than MAX_LINESIZE-1 bytes: -1, \"Line is too long.\" naming that line, callbacks of the prefix only); constants "
              "regenerated from the headers. Correspondence: "
              "grammar-generated conforming and offending documents x option tables (take counts, types, scopes, flags), "
-             "nesting, all bool spellings, number forms; reference oracle computed from the grammar value.",
+             "nesting, all bool spellings, number forms; INI documents with look-alike directive lines and separators from "
+             "{=,:,space,#,[}; reference oracle computed from the grammar value.",
         note="ac_accept_iff / ac_callbacks are proved for ARBITRARILY NESTED, properly closed sections incl. refusing "
              "callbacks (induction over the document tree); over-long lines (repaired: the rest of a line that does not fit "
              "is consumed): comments of any length are covered by every document-level theorem (FLineOk has no bound for "
